@@ -8,5 +8,6 @@ def run(ck):
     region.r6_1_equal(ck, P)
     region.r6_1b_equal_empty(ck, P)
     region.r6_2_extents_after_op(ck, P)
+    region.r6_2b_extents_after_drop(ck, P)
     region.r6_3_coalesce(ck, P)
     region.r6_4_normalisation(ck, P)
